@@ -173,20 +173,20 @@ def write_evidence(prop, tier, seed, level, coverage, wall_s, violations, assump
 
 # families of generated scenarios per property: (family, quick count, thorough count, generator options)
 PIE_PROPS = {
-    "C01": {"fams": [("WF", 300, 3000, {}), ("WF", 100, 1500, {"max_t": 7, "max_r": 5, "steps": 6})], "curated": ["known_findings.jsonl"], "design": ["td"]},
-    "C02": {"fams": [("WF", 250, 3000, {}), ("WF", 80, 1500, {"max_t": 7, "max_r": 5, "steps": 6})], "curated": ["f1_same_target_twice.jsonl"], "design": ["td"]},
-    "C03": {"fams": [("WF", 250, 3000, {"steps": 6}), ("WF", 150, 2000, {"max_t": 8, "max_r": 5, "steps": 7})], "curated": ["known_findings.jsonl"], "design": ["bu"]},
-    "C04": {"fams": [("WF", 250, 3000, {"steps": 6}), ("WF", 150, 2000, {"max_t": 8, "max_r": 5, "steps": 7})], "curated": [], "design": ["bu"]},
+    "C01": {"fams": [("WF", 300, 2000, {}), ("WF", 100, 800, {"max_t": 7, "max_r": 5, "steps": 6})], "curated": ["known_findings.jsonl"], "design": ["td"]},
+    "C02": {"fams": [("WF", 250, 2000, {}), ("WF", 80, 800, {"max_t": 7, "max_r": 5, "steps": 6})], "curated": ["f1_same_target_twice.jsonl"], "design": ["td"]},
+    "C03": {"fams": [("WF", 250, 2000, {"steps": 6}), ("WF", 150, 1000, {"max_t": 8, "max_r": 5, "steps": 7})], "curated": ["known_findings.jsonl"], "design": ["bu"]},
+    "C04": {"fams": [("WF", 250, 2000, {"steps": 6}), ("WF", 150, 1000, {"max_t": 8, "max_r": 5, "steps": 7})], "curated": [], "design": ["bu"]},
     "C05": {"fams": [("INJ", 150, 2000, {}), ("INJ", 50, 700, {"max_t": 7, "max_r": 5})], "curated": [], "design": ["inj"]},
     "C06": {"fams": [("INJ", 120, 1500, {}), ("WF", 40, 600, {})], "curated": [], "design": ["inj"]},
     "C07": {"fams": [("INJ", 150, 2000, {}), ("INJ", 50, 700, {"max_t": 7, "max_r": 5})], "curated": [], "design": ["inj"]},
     "C08": {"fams": [("WF", 90, 1200, {}), ("TWOCHK", 40, 600, {}), ("ABORT", 50, 800, {})], "curated": ["k2_two_checkers.jsonl"], "design": ["td"]},
-    "C09": {"fams": [("WF", 250, 3000, {}), ("WF", 80, 1500, {"max_t": 7, "max_r": 5, "steps": 6})], "curated": [], "design": ["td"]},
+    "C09": {"fams": [("WF", 250, 2000, {}), ("WF", 80, 800, {"max_t": 7, "max_r": 5, "steps": 6})], "curated": [], "design": ["td"]},
     "C15": {"fams": [("IDENT", 110, 1500, {})], "curated": [], "design": []},
     "C17": {"fams": [("WF", 70, 1000, {}), ("INJ", 30, 500, {}), ("FAULT", 30, 300, {}), ("ABORT", 20, 300, {})], "curated": [], "design": []},
     "C18": {"fams": [("FAULT", 130, 1800, {}), ("FAULT", 40, 600, {"max_t": 7, "max_r": 5, "steps": 6})], "curated": [], "design": []},
     "C19": {"fams": [("ABORT", 120, 1400, {}), ("INJ", 60, 600, {})], "curated": ["f2_abort_then_require.jsonl"], "design": []},
-    "C20": {"fams": [("ROLE", 300, 3000, {"max_t": 4}), ("WF", 60, 600, {})], "curated": ["known_findings.jsonl"], "design": []},
+    "C20": {"fams": [("ROLE", 300, 2000, {"max_t": 4}), ("WF", 60, 600, {})], "curated": ["known_findings.jsonl"], "design": []},
 }
 
 EXTRA_UNIT = {"C15": "keys"}
@@ -244,9 +244,30 @@ def run_pie_check(prop, tier, seed, replay):
                 gen_scenarios(fam, n, seed * 1000 + k, part, **{kk: vv for kk, vv in opts.items()})
                 out.write(open(part).read())
                 os.remove(part)
-    run_scenarios(scn_file, trace_file)
-    res = validate_trace(trace_file, out_file, tag)
     scns = load_scenarios(scn_file)
+    # validate in chunks (bounded memory and time per TLC run); excerpts of violating traces are extracted right away
+    res = {"viol": [], "kf": [], "runs": [], "events": 0, "tlc": {"distinct": 0, "generated": 0, "wall_s": 0.0}}
+    excerpts = {}
+    CH = 350
+    for ci in range(0, len(scns), CH):
+        part = os.path.join(WORK, "%s.chunk.jsonl" % tag)
+        with open(part, "w") as f:
+            for sc in scns[ci:ci + CH]:
+                f.write(json.dumps(sc) + "\n")
+        run_scenarios(part, trace_file)
+        r1 = validate_trace(trace_file, out_file, tag, timeout=7200)
+        clines = None
+        for v in r1["viol"] + r1["kf"]:
+            if (v[2], v[4]) not in excerpts and v[3] == prop:
+                if clines is None:
+                    clines = open(trace_file).read().split("\n")
+                excerpts[(v[2], v[4])] = clines[max(0, v[1] - 30):v[1]]
+        res["viol"] += r1["viol"]
+        res["kf"] += r1["kf"]
+        res["runs"] += r1["runs"]
+        res["events"] += r1["events"]
+        for k in ("distinct", "generated", "wall_s"):
+            res["tlc"][k] += r1["tlc"][k]
     by_id = {s["id"]: s for s in scns}
     conf = []
     if not replay:
@@ -285,9 +306,7 @@ def run_pie_check(prop, tier, seed, replay):
         if key in reported:
             continue
         reported.add(key)
-        if lines is None:
-            lines = open(trace_file).read().split("\n")
-        excerpt = lines[max(0, v[1] - 30):v[1]]
+        excerpt = excerpts.get((v[2], v[4]), [])
         path = write_replay(prop, v[4], by_id.get(v[2], {"id": v[2]}), v[1], excerpt)
         print("VIOLATION property=%s replay=%s" % (prop, path))
         print("  formula=%s scenario=%s trace line=%d" % (v[4], v[2], v[1]))
